@@ -274,6 +274,26 @@ class Gen:
                 for _ in range(2):
                     args = [(k, r.choice([("lit", 1), ("lit", 2), ("lit", 3), ("lit", "x"), ("path", "n", [])])) for k in ("a", "w", "v") if r.random() < 0.8]
                     out.append(("render", "pl", None, args) if r.random() < 0.7 else ("include", ("lit", "pl"), None, args))
+            if r.random() < 0.03:
+                # a `when` block that changes the subject: each `when` compares the subject as it is then
+                x = r.choice(["n", "a", "t"])
+                v1, v2 = r.sample([1, 2, 3, "a"], 2)
+                out.append(("assign", x, ("lit", v1)))
+                out.append(("case", ("path", x, []),
+                            [([("lit", v1)], [("assign", x, ("lit", v2)), ("content", "one ")]),
+                             ([("lit", v2), ("lit", 9)], [("content", "two ")]),
+                             ([("lit", v1)], [("content", "again ")])],
+                            [("content", "else ")] if r.random() < 0.5 else None))
+            if depth > 0 and r.random() < 0.03:
+                # the same call node runs twice while the macro is redefined in between (same
+                # parameter names, other order / defaults): arguments are bound afresh each time
+                d1 = [("a", None), ("q", ("lit", "Q1"))]
+                d2 = [("q", ("lit", "Q2")), ("a", ("lit", "A2"))]
+                mbody = [("output", ("path", "a", [])), ("content", "/"), ("output", ("path", "q", [])), ("content", ";")]
+                out.append(("for", "i", ("range", ("lit", 1), ("lit", r.choice([2, 3]))), None, None, False,
+                            [("if", ("path", "forloop", [("key", "first")]), [("macro", "mr", d1, mbody)], [], [("macro", "mr", d2, mbody)]),
+                             ("call", "mr", [("lit", r.choice([1, "x"]))], []),
+                             ("call", "mr", [], [("q", ("lit", 5))] if r.random() < 0.5 else [])], None))
             if r.random() < 0.16:
                 # a comment or raw tag between markup and text: the markers on its right-hand
                 # end decide how the text after it is trimmed
